@@ -201,9 +201,11 @@ class MemPrims:
             mut_ = short.endswith("mut")
             if "unchecked" in short:
                 return [(area_ref(mut_), path)]
-            p2 = path.copy()
             if path.tags.get("area_seq") is not None:
                 path.tags["list_unsupported"] = short
+            if short in ("first", "last", "first_mut", "last_mut") and any(e[0] in ("area_push", "recreate") for e in path.events):
+                return [(A.SOME(area_ref(mut_)), path)]  # an area was added on this path: the list is not empty
+            p2 = path.copy()
             return [(A.SOME(area_ref(mut_)), path), (A.NONE, p2)]
         if short in ("index", "index_mut") and "ops::Index" in name and len(args) == 2 and \
                 "MemoryArea" in (t["f"].get("gargs") or [""])[0] and "Range" not in " ".join(t["f"].get("gargs", [])[1:]):
